@@ -828,3 +828,253 @@ Qed.
 
 Theorem chk_block_sound : forall ss, sound_block ss.
 Proof. intros ss. apply block_sound. apply Forall_forall. intros s _. apply chk_sound. Qed.
+
+(* ------------------------------------------------------------------------------------ *)
+(* 7. user-supplied objects are never renamed on a path that does not go bad             *)
+
+Definition hwf (s : st) : Prop := forall c o, PM.find c (heap s) = Some o -> Pos.lt c (next s).
+
+Definition keeps (s s' : st) : Prop :=
+  hwf s -> hwf s' /\ (forall l o, PM.find l (heap s) = Some o -> t_oprov o = User -> PM.find l (heap s') = Some o).
+
+Lemma keeps_refl : forall s, keeps s s.
+Proof. intros s H. split; [exact H|auto]. Qed.
+
+Lemma keeps_trans : forall a b c, keeps a b -> keeps b c -> keeps a c.
+Proof.
+  intros a b c H1 H2 Ha. destruct (H1 Ha) as [Hb K1]. destruct (H2 Hb) as [Hc K2]. split; [exact Hc|].
+  intros l o F U. apply K2; [apply K1; assumption|exact U].
+Qed.
+
+Lemma keeps_same_heap : forall s s', heap s' = heap s -> next s' = next s -> keeps s s'.
+Proof.
+  intros s s' Eh En H. split.
+  - intros c o F. rewrite Eh in F. rewrite En. eapply H. exact F.
+  - intros l o F _. rewrite Eh. exact F.
+Qed.
+
+Lemma keeps_alloc_bind : forall s x v o, keeps s (bind x v (snd (alloc o s))).
+Proof.
+  intros s x v o H. unfold alloc, bind. simpl. split.
+  - intros c o' F. simpl in *. destruct (Pos.eq_dec c (next s)) as [E|N].
+    + subst c. lia.
+    + rewrite PM.gso in F by exact N. specialize (H _ _ F). lia.
+  - intros l o' F _. simpl. pose proof (H _ _ F). rewrite PM.gso by lia. exact F.
+Qed.
+
+Lemma bind_all_heap : forall bs s, heap (bind_all bs s) = heap s /\ next (bind_all bs s) = next s.
+Proof.
+  induction bs as [|b bs IH]; intros s; simpl; [split; reflexivity|].
+  destruct (IH (bind (fst b) (AP (snd b)) s)) as [E1 E2]. rewrite E1, E2. split; reflexivity.
+Qed.
+
+Lemma bind_pat_keeps : forall p v s s', bind_pat p v s = ROk s' -> keeps s s'.
+Proof.
+  intros p v s s' H. unfold bind_pat in H. apply rbind_ok in H. destruct H as [bs [_ H]]. inversion H.
+  destruct (bind_all_heap bs s) as [E1 E2]. apply keeps_same_heap; assumption.
+Qed.
+
+Lemma step_keeps : forall s c s', step s c = ROk s' -> keeps s s'.
+Proof.
+  intros s c s' H. destruct c as [t e|op t e|e|p e body|cnd a b]; simpl in H; try discriminate.
+  - destruct t as [x|a i].
+    + rewrite assign_name_eq in H.
+      assert (G : assign_gen s x e = ROk s' -> keeps s s').
+      { clear H. intros H. unfold assign_gen in H. apply rbind_ok in H. destruct H as [r [_ H]]. destruct r as [o|].
+        - inversion H. apply keeps_alloc_bind.
+        - apply rbind_ok in H. destruct H as [v [_ H]]. destruct (rv_to_aval v); [|discriminate].
+          inversion H. apply keeps_same_heap; reflexivity. }
+      destruct e; try (apply G; exact H).
+      destruct (PM.find x0 (env s)) as [[m v]|]; [|discriminate]. inversion H. apply keeps_same_heap; reflexivity.
+    + apply rbind_ok in H. destruct H as [u [_ H]]. inversion H. apply keeps_refl.
+  - apply rbind_ok in H. destruct H as [u [_ H]]. inversion H. apply keeps_refl.
+  - unfold expr_stmt in H. destruct (setrank_syntax e) as [[[y args] kw]|].
+    + apply rbind_ok in H. destruct H as [ids [_ H]].
+      destruct (PM.find y (env s)) as [[m v]|]; [|discriminate].
+      destruct v as [c|p|p|p|g|]; try discriminate.
+      destruct (PM.find c (heap s)) as [o|] eqn:HC; [|discriminate].
+      destruct (t_oprov o) eqn:EP; [discriminate|].
+      destruct (Nat.eqb (length ids) (length (t_ids o))); [|discriminate].
+      inversion H. intros W. unfold hset. simpl. split.
+      * intros c' o' F. simpl in *. destruct (Pos.eq_dec c' c) as [E|N].
+        -- subst c'. eapply W. exact HC.
+        -- rewrite PM.gso in F by exact N. eapply W. exact F.
+      * intros l o' F U. simpl. destruct (Pos.eq_dec l c) as [E|N].
+        -- subst l. rewrite HC in F. inversion F. subst o'. rewrite EP in U. discriminate.
+        -- rewrite PM.gso by exact N. exact F.
+    + apply rbind_ok in H. destruct H as [v [_ H]]. inversion H. apply keeps_refl.
+Qed.
+
+Scheme sem_mut := Minimality for sem Sort Prop
+  with sem_loop_mut := Minimality for sem_loop Sort Prop
+  with sem_block_mut := Minimality for sem_block Sort Prop.
+Combined Scheme sem_mutind from sem_mut, sem_loop_mut, sem_block_mut.
+
+Definition fine_keeps (s : st) (o : outcome) : Prop := forall s', o = OFine s' -> keeps s s'.
+
+Lemma sem_keeps_all :
+  (forall s c o, sem s c o -> fine_keeps s o) /\
+  (forall s p el body o, sem_loop s p el body o -> fine_keeps s o) /\
+  (forall s ss o, sem_block s ss o -> fine_keeps s o).
+Proof.
+  apply sem_mutind; unfold fine_keeps; intros; try discriminate.
+  - inversion H1. subst. eapply step_keeps. eassumption.
+  - apply H1. assumption.
+  - apply H1. assumption.
+  - apply H1. assumption.
+  - inversion H. apply keeps_refl.
+  - eapply keeps_trans; [eapply bind_pat_keeps; eassumption|].
+    eapply keeps_trans; [apply H1; reflexivity|]. apply H3. assumption.
+  - inversion H. apply keeps_refl.
+  - eapply keeps_trans; [apply H0; reflexivity|]. apply H2. assumption.
+Qed.
+
+Theorem sem_frame : forall s ss s', sem_block s ss (OFine s') -> hwf s ->
+  forall l o, PM.find l (heap s) = Some o -> t_oprov o = User -> PM.find l (heap s') = Some o.
+Proof.
+  intros s ss s' H W. destruct sem_keeps_all as [_ [_ K]]. destruct (K _ _ _ H s' eq_refl W) as [_ F]. exact F.
+Qed.
+
+(* ------------------------------------------------------------------------------------ *)
+(* 8. the initial state; the verdict                                                      *)
+
+Definition all_user (s : st) : Prop := forall l o, PM.find l (heap s) = Some o -> t_oprov o = User.
+
+Lemma fold_left_inv : forall A (I : st -> Prop) (f : st -> A -> st) (l : list A),
+  (forall s x, I s -> I (f s x)) -> forall s, I s -> I (fold_left f l s).
+Proof. intros A I f l Hf. induction l as [|x l IH]; intros s Hs; simpl; [exact Hs|]. apply IH. apply Hf. exact Hs. Qed.
+
+Lemma init_all_user : forall c, all_user (init c).
+Proof.
+  intros c. unfold init. apply fold_left_inv.
+  - intros s i Hs l o F. unfold bind, alloc in F. simpl in F.
+    destruct (Pos.eq_dec l (next s)) as [E|N].
+    + subst l. rewrite PM.gss in F. inversion F. reflexivity.
+    + rewrite PM.gso in F by exact N. eapply Hs. exact F.
+  - apply fold_left_inv; [intros s x Hs; exact Hs|].
+    apply fold_left_inv; [intros s x Hs; exact Hs|].
+    intros l o F. simpl in F. rewrite PM.gempty in F. discriminate.
+Qed.
+
+Lemma name_okb_sound : forall S C n, le S C -> name_okb C n = true -> name_ok S n.
+Proof.
+  intros S C n [_ [_ [Pw _]]] H b v F. unfold name_okb in H. specialize (Pw (fst n)). rewrite F in Pw.
+  destruct (PM.find (fst n) (env C)) as [[mb w]|]; [|discriminate Pw].
+  destruct Pw as [_ V].
+  destruct w as [cb|p|p|p|g|]; try discriminate.
+  destruct (PM.find cb (heap C)) as [o|] eqn:HC; [|discriminate].
+  apply andb_true_iff in H. destruct H as [H1 H2]. apply String.eqb_eq in H1.
+  destruct V as [E|V]; [discriminate E|].
+  destruct v as [ca|p|p|p|g|]; try (destruct V; fail); try discriminate V.
+  destruct V as [o' [Ha Hb]]. rewrite HC in Hb. inversion Hb. subst o'.
+  exists ca, o. split; [reflexivity|]. split; [exact Ha|]. split; [exact H1|].
+  intros l El. rewrite El in H2. apply strs_eqb_eq. exact H2.
+Qed.
+
+Lemma required_okb_sound : forall S C x, le S C -> required_okb C x = true -> PM.find x (env S) <> None.
+Proof.
+  intros S C x [_ [_ [Pw _]]] H. unfold required_okb in H. specialize (Pw x).
+  destruct (PM.find x (env C)) as [[mb w]|]; [|discriminate]. destruct mb; [|discriminate].
+  destruct (PM.find x (env S)) as [[ma v]|]; [discriminate|discriminate Pw].
+Qed.
+
+Theorem rankty_sound : forall c p, rankty_ok c p = true ->
+  (forall w, ~ sem_block (init c) p (OBad w)) /\
+  (forall s', sem_block (init c) p (OFine s') -> post c s').
+Proof.
+  intros c p H. unfold rankty_ok in H. apply andb_true_iff in H. destruct H as [W H].
+  apply wfb_wf in W.
+  destruct (chk_block (init c) p) as [C'|w|x] eqn:E; try discriminate.
+  apply andb_true_iff in H. destruct H as [HN HR]. rewrite forallb_forall in HN, HR.
+  destruct (chk_block_sound p _ _ E _ (le_refl _ W)) as [NB F]. split; [exact NB|].
+  intros s' Hs. pose proof (F _ Hs) as L. split; [|split].
+  - intros n In. eapply name_okb_sound; [exact L|]. apply HN. exact In.
+  - intros x In. eapply required_okb_sound; [exact L|]. apply HR. exact In.
+  - intros l o Fl. eapply sem_frame; [exact Hs| |exact Fl|eapply init_all_user; exact Fl].
+    destruct W as [_ W2]. exact W2.
+Qed.
+
+(* ------------------------------------------------------------------------------------ *)
+(* 9. the deterministic path runner produces paths of the semantics                      *)
+
+Lemma run_inner_block_eq : forall n ss c,
+  (fix go (c : st) (ss : list stmt) {struct ss} : rres st :=
+     match ss with
+     | [] => ROk c
+     | s :: ss' => dor c' <- run_path n c s; go c' ss'
+     end) c ss = run_path_block n c ss.
+Proof.
+  induction ss as [|s ss IH]; intros c; simpl; [reflexivity|].
+  destruct (run_path n c s); simpl; try reflexivity; apply IH.
+Qed.
+
+Fixpoint loop_path (run : st -> rres st) (k : nat) (c : st) : rres st :=
+  match k with
+  | O => ROk c
+  | S k' => dor c2 <- run c; loop_path run k' c2
+  end.
+
+Lemma run_loop_eq : forall n p el body k c,
+  (fix it (k : nat) (c : st) {struct k} : rres st :=
+     match k with
+     | O => ROk c
+     | S k' =>
+         dor c1 <- bind_pat p el c;
+         dor c2 <- (fix go (c0 : st) (ss : list stmt) {struct ss} : rres st :=
+                      match ss with
+                      | [] => ROk c0
+                      | s :: ss' => dor c' <- run_path n c0 s; go c' ss'
+                      end) c1 body;
+         it k' c2
+     end) k c =
+  loop_path (fun c => dor c1 <- bind_pat p el c; run_path_block n c1 body) k c.
+Proof.
+  intros n p el body. induction k as [|k IH]; intros c; simpl; [reflexivity|].
+  destruct (bind_pat p el c) as [c1|w|x]; simpl; try reflexivity.
+  rewrite run_inner_block_eq. destruct (run_path_block n c1 body); simpl; try reflexivity. apply IH.
+Qed.
+
+Lemma run_path_for_eq : forall n c p e body,
+  run_path n c (SFor p e body) =
+  (dor el <- for_elem c e; loop_path (fun c => dor c1 <- bind_pat p el c; run_path_block n c1 body) n c).
+Proof.
+  intros n c p e body. simpl. destruct (for_elem c e) as [el|w|x]; simpl; try reflexivity.
+  apply run_loop_eq.
+Qed.
+
+Lemma run_path_if_eq : forall n c cnd a b,
+  run_path n c (SIf cnd a b) = (dor _ <- aeval (rho c) cnd; run_path_block n c a).
+Proof. intros. simpl. rewrite run_inner_block_eq. reflexivity. Qed.
+
+Definition path_stmt (n : nat) (s : stmt) : Prop := forall c c', run_path n c s = ROk c' -> sem c s (OFine c').
+
+Lemma path_block : forall n ss, Forall (path_stmt n) ss ->
+  forall c c', run_path_block n c ss = ROk c' -> sem_block c ss (OFine c').
+Proof.
+  induction 1 as [|s ss Hs _ IH]; intros c c' H; simpl in H.
+  - inversion H. constructor.
+  - apply rbind_ok in H. destruct H as [c1 [H1 H2]]. econstructor; [apply Hs; exact H1|apply IH; exact H2].
+Qed.
+
+Lemma path_loop : forall n p el body, Forall (path_stmt n) body ->
+  forall k c c', loop_path (fun c => dor c1 <- bind_pat p el c; run_path_block n c1 body) k c = ROk c' ->
+  sem_loop c p el body (OFine c').
+Proof.
+  intros n p el body HB. induction k as [|k IH]; intros c c' H; simpl in H.
+  - inversion H. constructor.
+  - apply rbind_ok in H. destruct H as [c2 [H1 H2]]. apply rbind_ok in H1. destruct H1 as [c1 [Hb Hr]].
+    eapply loop_iter; [exact Hb|eapply path_block; eassumption|apply IH; exact H2].
+Qed.
+
+Theorem run_path_sem : forall n s, path_stmt n s.
+Proof.
+  intros n. induction s as [t e|op t e|e|p e body IHb|cnd a b IHa IHb] using stmt_ind';
+    try (intros c c' H; apply sem_step_ok; [reflexivity|exact H]).
+  - intros c c' H. rewrite run_path_for_eq in H. apply rbind_ok in H. destruct H as [el [He H]].
+    eapply sem_for; [exact He|]. eapply path_loop; eassumption.
+  - intros c c' H. rewrite run_path_if_eq in H. apply rbind_ok in H. destruct H as [v [Hv H]].
+    eapply sem_if_then; [exact Hv|]. eapply path_block; eassumption.
+Qed.
+
+Theorem run_path_block_sem : forall n ss c c', run_path_block n c ss = ROk c' -> sem_block c ss (OFine c').
+Proof. intros n ss. apply path_block. apply Forall_forall. intros s _. apply run_path_sem. Qed.
